@@ -928,7 +928,7 @@ def check_totality(pid, tier, seed, scratch, replay):
     import concurrent.futures as cf
     thorough = tier == "thorough"
     rep = Report(pid, tier, seed)
-    rep.rule = ("TLC enumerates (spec/Totality.tla): every token sequence of length <=K (quick 3, thorough 4) over per-format alphabets "
+    rep.rule = ("TLC enumerates (spec/Totality.tla): every token sequence of length <=K (quick 3, thorough 4; TTML, whose alphabet has 24 tokens, 3 in both tiers) over per-format alphabets "
                 "that contain malformed tokens (timing line without end / start, bare arrow, unbalanced tags, rows before / shorter / "
                 "longer than Format, bad numbers, unknown style / region references, <p> without begin / end ...) for SRT, WebVTT, SSA, "
                 "TTML; every field-level mutation of a valid STL file (16 GSI fields x 5 value classes, 7 TTI fields x 7 classes, 5 sizes); "
@@ -948,7 +948,8 @@ def check_totality(pid, tier, seed, scratch, replay):
     jobs = []
     for kind, parts in (("srt", 2), ("vtt", 14 if thorough else 3), ("ssa", 8 if thorough else 3), ("ttml", 6 if thorough else 2), ("stl", 1)):
         for p in range(parts):
-            jobs.append((kind, K, p, parts, None))
+            # the TTML alphabet has 24 tokens: sequences of length 4 (3.3*10^5) do not fit the time budget of the tier
+            jobs.append((kind, 3 if kind == "ttml" else K, p, parts, None))
     sparts = 16
     for p in (range(sparts) if thorough else [(seed + i * 5) % sparts for i in range(3)]):
         jobs.append(("shapes", 11, p, sparts, None))
